@@ -290,6 +290,11 @@ func TestSim(t *testing.T) {
 		if len(vs) > 0 && replayDir != "" {
 			// minimise the first violation of each distinct class (bounded)
 			seen := map[string]bool{}
+			for _, kc := range strings.Split(os.Getenv("VERIF_SKIP_MIN"), "|") {
+				if kc != "" {
+					seen[kc] = true // known findings are not minimised again
+				}
+			}
 			for _, v := range vs {
 				if seen[v.Class] {
 					continue
